@@ -361,6 +361,37 @@ def run_case(spec):
             return V
 
         ob = (b + 1) % len(vecs)
+        if len(vecs) > 1 and (spec["rs"] % 4 == 0):
+            # tilt towards a ZERO-ENERGY state of another block: every subspace stays internally orthonormal and the projected
+            # H_0 stays block diagonal with distinct energies, so only the cross-subspace overlap check can reject the input
+            r2 = rng_for(20, spec["rs"], 77)
+            szs = [int(np.shape(v if p.hermitian else v[0])[1]) for v in vecs]
+            Nt = sum(szs)
+            En = np.arange(1, Nt + 1) * 1.5 + r2.random(Nt)
+            o = np.concatenate([[0], np.cumsum(szs)])
+            En[o[ob]] = 0.0
+            Q = np.linalg.qr(r2.normal(size=(Nt, Nt)) + (1j * r2.normal(size=(Nt, Nt)) if r2.random() < 0.5 else 0))[0]
+            H0k = (Q * En) @ Q.conj().T
+            A = r2.normal(size=(Nt, Nt))
+            H1k = A + A.T
+            good = [Q[:, o[k]:o[k + 1]].copy() for k in range(len(szs))]
+            bad = [g.copy() for g in good]
+            bad[b][:, 0] = 0.8 * good[b][:, 0] + 0.6 * good[ob][:, 0]
+            wrap = (lambda vs: tuple(vs)) if p.hermitian else (lambda vs: tuple((v, v) for v in vs))
+            try:
+                outs = block_diagonalize([H0k, H1k], subspace_eigenvectors=wrap(good), hermitian=p.hermitian)
+                outs[0][0, 0, 2]
+            except Exception as e:  # noqa: BLE001
+                raise Violation(f"valid twin of the kernel-tilt case was rejected: {type(e).__name__}: {e}")
+            counters["not_orthonormal_kernel_tilt"] += 1
+
+            def _bad():
+                o2 = block_diagonalize([H0k, H1k], subspace_eigenvectors=wrap(bad), hermitian=p.hermitian)
+                o2[0][0, 0, 2]
+                o2[1][0, 1, 1]
+
+            _expect_rejection("eigenvectors not (bi)orthonormal (tilt towards a zero-energy state of another block)", _bad, counters)
+            return dict(verdict="held", sig=["not_orthonormal", "kernel_tilt", szs, p.hermitian, b, ob], nontrivial=True, counters=dict(counters), sample=dict(kind="kernel_tilt", sizes=szs, hermitian=p.hermitian))
         if p.hermitian:
             other = vecs[ob][:, 0] if len(vecs) > 1 else None
             vecs[b] = damage(vecs[b], other)
